@@ -576,16 +576,21 @@ func runStep(w *world, s *stepSpec, before *stepOut) stepOut {
 		pkt *packet.TransferPacket
 	}
 	var delivered []deliv
+	var toSender []*packet.TransferPacket
 	collect := func() {
 		for ci := 1; ci < len(w.conn); ci++ {
-			if w.conn[ci] == sconn && sconn != nil {
-				continue
-			}
 			if w.conn[ci].peekLen() == 0 {
 				continue
 			}
+			own := w.conn[ci] == sconn && sconn != nil
 			for _, p := range decodeAll(w.conn[ci].take()) {
-				delivered = append(delivered, deliv{ci, p})
+				if own {
+					// written to the sender's own connection: not a delivery to another client (a client that is the target
+					// side of its own default SOCKS mapping gets its DNS request forwarded to itself; answer it all the same)
+					toSender = append(toSender, p)
+				} else {
+					delivered = append(delivered, deliv{ci, p})
+				}
 				if p.CommandPacket != nil && !p.PacketType.IsCommandResp() &&
 					(p.CommandPacket.CommandType == packet.DNSResolve || p.CommandPacket.CommandType == packet.DNSQuery) {
 					// answer it
@@ -665,7 +670,7 @@ loop:
 	o.DiscM, o.DiscC, o.DiscD, o.SecretLeak = []int64{}, []int64{}, []int64{}, []int64{}
 	if sconn != nil {
 		var text strings.Builder
-		for _, p := range decodeAll(sconn.take()) {
+		for _, p := range append(toSender, decodeAll(sconn.take())...) {
 			if p.CommandPacket != nil {
 				text.WriteString(p.CommandPacket.CommandBody)
 				text.WriteString("\n")
